@@ -9,7 +9,7 @@ from vmon import interpose
 from vmon.core import rng_for
 from vmon.refs import graph, rank
 
-PATTERNS = ('gram', 'equi', 'ties', 'negative', 'block', 'monotone', 'near_dup', 'zero_tau')
+PATTERNS = ('gram', 'equi', 'ties', 'negative', 'block', 'monotone', 'near_dup', 'zero_tau', 'huge_range')
 SENTINELS = {'pos': 111.0, 'neg': -222.0, 'nan': float('nan'), 'zero': 0.0}
 
 
@@ -57,6 +57,11 @@ def make_table(spec):
         X[:, 0] = g + 0.0
         j = 1 + int(rng.integers(max(1, d - 1))) if d > 1 else 0
         X[:, j] = g ** 2 + (0 if rng.random() < 0.5 else 0) 
+    elif pat == 'huge_range':
+        # columns spanning some 25 decades (log-normal, sigma 8): ranks are what they are, but anything computed from
+        # smoothed or rescaled values (kernel CDFs, float32 copies) loses the order of the small values
+        for j in range(d):
+            X[:, j] = np.exp(8.0 * Z[:, j])
     elif pat == 'near_monotone_exp':
         X[:, -1] = np.exp(X[:, 0]) + 0.02 * rng.standard_normal(n)
     perm = spec.get('perm') or list(range(d))
@@ -88,7 +93,15 @@ def fit(ctx, vine_type, df, truncated, sentinel='pos', random_state=None, past=N
                 model.to_dict()
             except Exception:  # noqa: BLE001 - a refused earlier fit is part of the history
                 pass
-        ok, exc = ctx.call(model.fit, df.copy(), truncated=truncated)
+        # the truncation level is given by keyword or by position (fit(X, truncated=3) is the signature), or left
+        # to its default when it equals the default
+        how = (int(df.shape[0]) + int(df.shape[1]) + int(truncated)) % 3
+        if how == 0:
+            ok, exc = ctx.call(model.fit, df.copy(), truncated=truncated)
+        elif how == 1 or truncated != 3:
+            ok, exc = ctx.call(model.fit, df.copy(), truncated)
+        else:
+            ok, exc = ctx.call(model.fit, df.copy())
     if not ok:
         return exc, None
     return model, p
@@ -196,6 +209,14 @@ def check_structure(ctx, model, df, vine_type, truncated, where, prop='C16'):
         for i in range(d):
             for j in range(i + 1, d):
                 T[i, j] = T[j, i] = abs(rank.tau_b(X[:, i], X[:, j]))
+        # the structure is chosen from the Kendall tau of the TABLE's columns (ranks are invariant under the marginal
+        # transforms, so a tau matrix computed anywhere else must still be this one)
+        tm = getattr(model, 'tau_mat', None)
+        if tm is not None and np.shape(tm) == (d, d):
+            off = ~np.eye(d, dtype=bool)
+            worst = float(np.max(np.abs(np.abs(np.asarray(tm, dtype=float))[off] - T[off]))) if d > 1 else 0.0
+            ctx.check(worst <= 1e-12, 'vine.tau-matrix-is-table-tau', prop + ':tau-matrix-not-kendall-tau-of-the-table',
+                      lambda: dict(where, worst=worst))
         got = sum(T[int(e.L), int(e.R)] for e in trees[0].edges)
         best = graph.max_spanning_weight(d, lambda i, j: T[i, j])
         ctx.check(abs(got - best) <= 1e-12 * max(1, best) + 1e-12, 'vine.first-tree-maximal', prop + ':first-tree-not-maximum-spanning-tree',
